@@ -89,6 +89,7 @@ def run(ctx, repo):
     ctx.rule('R2', 'every return is a str expression')
     ctx.rule('R3', 'the PAT_PERF filter precedes numeric parsing on the non-custom arms')
     ctx.rule('R4', "every field record formatted '%0.2f' is accepted by PAT_PERF (records are enterable)")
+    ctx.rule('R6', 'the documented speed limits (11 m/s up to 400 m, 10 m/s beyond, 0.5 m/s minimum for all) are raise-guards; the slow limit is independent of the distance class')
     ctx.rule('R5', 'the timed arm refuses seconds >= 60 under minutes and minutes >= 60 under hours with errorKlass')
     # ---- R1
     n_conv = 0
@@ -126,6 +127,60 @@ def run(ctx, repo):
     for h in ast.walk(fn):
         if isinstance(h, ast.ExceptHandler) and not any(isinstance(x, ast.Raise) for x in ast.walk(h)):
             ctx.finding('R1', '%s::%s::handler swallows' % (UTILS, FN), UTILS, h.lineno, 'an except handler swallows the error instead of raising errorKlass')
+    # message construction must not raise: '%' format arity
+    import re as _re
+    for b in ast.walk(fn):
+        if isinstance(b, ast.BinOp) and isinstance(b.op, ast.Mod) and isinstance(b.left, ast.Constant) and isinstance(b.left.value, str):
+            specs = _re.findall(r'%(?!%)[-+ #0]*\d*(?:\.\d+)?[sdrfgiexXc]', b.left.value.replace('%%', ''))
+            if isinstance(b.right, ast.Tuple):
+                nargs = len(b.right.elts)
+            elif isinstance(b.right, (ast.Dict,)):
+                continue
+            else:
+                nargs = 1
+            if len(specs) != nargs:
+                ctx.finding('R1', '%s::%s::format arity %s' % (UTILS, FN, b.left.value[:40]), UTILS, b.lineno,
+                            'the message %r has %d conversion(s) but is formatted with %d value(s): building it raises TypeError, which '
+                            'reaches the caller instead of errorKlass' % (b.left.value[:60], len(specs), nargs), b.left.value[:60])
+            else:
+                ctx.ok('R1', 'format arity of %r' % b.left.value[:30])
+    # ---- R6 sanity limits: each limit is a raise-guard and the slow limit does not depend on the distance class
+    lims = {}
+    for n in ast.walk(fn):
+        if isinstance(n, ast.If) and isinstance(n.test, ast.Compare) and ast.unparse(n.test.left) == 'velocity' \
+                and isinstance(n.test.comparators[0], ast.Constant) and any(isinstance(r, ast.Raise) for r in n.body):
+            op = type(n.test.ops[0]).__name__
+            conds = []
+            c, p = n, getattr(n, '_parent', None)
+            while p is not None and p is not fn:
+                if isinstance(p, ast.If) and c is not p.test:
+                    conds.append((ast.unparse(p.test), c in p.body))
+                c, p = p, getattr(p, '_parent', None)
+            lims[(op, n.test.comparators[0].value)] = (n, conds)
+    want = {('Gt', 11.0): 'distance <= 400', ('Gt', 10.0): 'distance > 400', ('Lt', 0.5): None}
+    for k, dcond in want.items():
+        if k not in lims:
+            ctx.finding('R6', '%s::%s::sanity limit velocity %s %s' % (UTILS, FN, k[0], k[1]), UTILS, fn.lineno,
+                        'the documented sanity limit `velocity %s %s` is no longer enforced by a raise of errorKlass' % ('>' if k[0] == 'Gt' else '<', k[1]))
+            continue
+        n, conds = lims[k]
+        dconds = [(t, pol) for t, pol in conds if 'distance <' in t or 'distance >' in t or 'velocity' in t]
+        if dcond is None:
+            if dconds:
+                ctx.finding('R6', '%s::%s::slow limit depends on %s' % (UTILS, FN, dconds[0][0]), UTILS, n.lineno,
+                            'the too-slow limit (velocity < 0.5) is only reached when `%s` is %s: for the other events an absurdly slow '
+                            'time is accepted' % (dconds[0][0], dconds[0][1]), "('100', '45:10.5')")
+            else:
+                ctx.ok('R6', 'too-slow limit applies to every distance')
+        else:
+            # the fast limits: guarded by the right distance class (directly, or as the complement in an elif chain)
+            ok = any((t == dcond and pol) for t, pol in dconds) or \
+                (dcond == 'distance > 400' and any(t == 'distance <= 400' and not pol for t, pol in dconds))
+            if ok:
+                ctx.ok('R6', 'fast limit %s for %s' % (k[1], dcond))
+            else:
+                ctx.finding('R6', '%s::%s::fast limit %s class' % (UTILS, FN, k[1]), UTILS, n.lineno,
+                            'the too-fast limit %s is not tied to `%s` (conditions: %s)' % (k[1], dcond, dconds))
     # ---- R2
     n_ret = 0
     for r in ast.walk(fn):
